@@ -22,6 +22,13 @@ pub const NWK_KEY: [u8; 16] = [0x11, 0x22, 0x33, 0x44, 0x55, 0x66, 0x77, 0x88, 0
 pub const APP_KEY: [u8; 16] = [0xa1, 0xa2, 0xa3, 0xa4, 0xa5, 0xa6, 0xa7, 0xa8, 0xa9, 0xaa, 0xab, 0xac, 0xad, 0xae, 0xaf, 0xb0];
 /// OTAA root key
 pub const ROOT_KEY: [u8; 16] = [0x2b, 0x7e, 0x15, 0x16, 0x28, 0xae, 0xd2, 0xa6, 0xab, 0xf7, 0x15, 0x88, 0x09, 0xcf, 0x4f, 0x3c];
+/// credential sets an application may join with: (AppEUI, DevEUI, AppKey) as wire bytes; `otaa`
+/// uses set 0, `otaa <k>` set k (a corrected key / another network after a failed attempt)
+pub const CREDS: [([u8; 8], [u8; 8], [u8; 16]); 3] = [
+    ([0x0a; 8], [0x0b; 8], ROOT_KEY),
+    ([0x01, 0x02, 0x03, 0x04, 0x05, 0x06, 0x07, 0x08], [0x11, 0x12, 0x13, 0x14, 0x15, 0x16, 0x17, 0x18], [0x5a, 0x69, 0x78, 0x87, 0x96, 0xa5, 0xb4, 0xc3, 0xd2, 0xe1, 0xf0, 0x0f, 0x1e, 0x2d, 0x3c, 0x4b]),
+    ([0x0a; 8], [0x21, 0x22, 0x23, 0x24, 0x25, 0x26, 0x27, 0x28], ROOT_KEY),
+];
 pub const OTHER_KEY: [u8; 16] = [0x5a; 16];
 pub const JOIN_NONCE: [u8; 3] = [0x31, 0x32, 0x33];
 pub const NET_ID: [u8; 3] = [0x13, 0x00, 0x00];
@@ -401,6 +408,8 @@ pub struct Runner {
     pub app: [u8; 16],
     pub region_name: String,
     pub otaa_nonce: Option<u16>,
+    /// credential set of the join attempt in progress / of the session
+    pub cred: usize,
 }
 
 fn parse_header(hd: &str) -> Option<Runner> {
@@ -444,7 +453,7 @@ fn parse_header(hd: &str) -> Option<Runner> {
             _ => return None,
         }
     };
-    Some(Runner { mac: VerifMac::new(conf, max_power, gain), rng: HRng::new(seed, forced), last_tx: None, nwk: NWK_KEY, app: APP_KEY, region_name: w[2].to_string(), otaa_nonce: None })
+    Some(Runner { mac: VerifMac::new(conf, max_power, gain), rng: HRng::new(seed, forced), last_tx: None, nwk: NWK_KEY, app: APP_KEY, region_name: w[2].to_string(), otaa_nonce: None, cred: 0 })
 }
 
 pub fn parse_header_pub(hd: &str) -> Option<Runner> {
@@ -496,11 +505,14 @@ impl Runner {
                     Err(e) => Some(format!("bad-session:{}", e)),
                 }
             }
-            ["otaa"] => {
-                let creds = NetworkCredentials::new(AppEui::from([0x0a; 8]), DevEui::from([0x0b; 8]), AppKey::from(ROOT_KEY));
+            ["otaa"] | ["otaa", _] => {
+                let k: usize = w.get(1).and_then(|x| x.parse().ok()).unwrap_or(0);
+                let (aeui, deui, key) = *CREDS.get(k)?;
+                self.cred = k;
+                let creds = NetworkCredentials::new(AppEui::from(aeui), DevEui::from(deui), AppKey::from(key));
                 let (tx, nonce) = self.mac.join_otaa(&mut self.rng, creds);
                 self.otaa_nonce = Some(nonce);
-                let s = format!("join {} nonce={} jr={}", show_tx(&tx), nonce, check_join_request(&tx.frame, nonce));
+                let s = format!("join {} nonce={} jr={}", show_tx(&tx), nonce, check_join_request(&tx.frame, nonce, k));
                 self.last_tx = Some(tx);
                 Some(s)
             }
@@ -547,7 +559,7 @@ impl Runner {
                     self.nwk = s.nwkskey;
                     self.app = s.appskey;
                     let n = self.otaa_nonce.unwrap_or(0);
-                    let ok = s.nwkskey == derive_key(0x01, n) && s.appskey == derive_key(0x02, n);
+                    let ok = s.nwkskey == derive_key(0x01, n, self.cred) && s.appskey == derive_key(0x02, n, self.cred);
                     keys = format!(" keys={}", if ok { "ok" } else { "BAD" });
                 }
                 let dl = match self.mac.take_downlink() {
@@ -598,7 +610,8 @@ impl Runner {
 
 /// JoinRequest layout per LoRaWAN 1.0.x §6.2.4, checked without the repository's parser:
 /// MHDR 0x00 | AppEUI (LE) | DevEUI (LE) | DevNonce (LE) | MIC = CMAC(AppKey, MHDR..DevNonce)[0..4]
-pub fn check_join_request(frame: &[u8], nonce: u16) -> String {
+pub fn check_join_request(frame: &[u8], nonce: u16, cred: usize) -> String {
+    let (aeui, deui, key) = CREDS[cred];
     use lorawan::keys::Crypto;
     if frame.len() != 23 {
         return format!("BAD:len{}", frame.len());
@@ -606,14 +619,14 @@ pub fn check_join_request(frame: &[u8], nonce: u16) -> String {
     if frame[0] != 0x00 {
         return "BAD:mhdr".into();
     }
-    // `AppEui::from([0x0a; 8])` / `DevEui::from([0x0b; 8])`: identical bytes in either order
-    if frame[1..9] != [0x0a; 8] || frame[9..17] != [0x0b; 8] {
+    // the identifiers are given as wire bytes (LoRaWAN sends them least significant octet first)
+    if frame[1..9] != aeui || frame[9..17] != deui {
         return "BAD:euis".into();
     }
     if frame[17..19] != nonce.to_le_bytes() {
         return "BAD:nonce".into();
     }
-    let mic = DefaultCrypto::new(&AES128(ROOT_KEY)).calculate_mic(&[], &frame[..19]);
+    let mic = DefaultCrypto::new(&AES128(key)).calculate_mic(&[], &frame[..19]);
     if frame[19..23] != mic {
         return "BAD:mic".into();
     }
@@ -622,14 +635,14 @@ pub fn check_join_request(frame: &[u8], nonce: u16) -> String {
 
 /// LoRaWAN 1.0.x §6.2.5 session key derivation, straight from the formula:
 /// key = aes128_encrypt(AppKey, tag | JoinNonce | NetID | DevNonce | pad16)
-pub fn derive_key(tag: u8, nonce: u16) -> [u8; 16] {
+pub fn derive_key(tag: u8, nonce: u16, cred: usize) -> [u8; 16] {
     use lorawan::keys::Crypto;
     let mut b = [0u8; 16];
     b[0] = tag;
     b[1..4].copy_from_slice(&JOIN_NONCE);
     b[4..7].copy_from_slice(&NET_ID);
     b[7..9].copy_from_slice(&nonce.to_le_bytes());
-    DefaultCrypto::new(&AES128(ROOT_KEY)).encrypt_block(&mut b);
+    DefaultCrypto::new(&AES128(CREDS[cred].2)).encrypt_block(&mut b);
     b
 }
 
